@@ -119,3 +119,70 @@ def c10(work, tier, seed, replay):
 
 
 CHECKS["C10"] = c10
+
+
+# ----------------------------------------------------------------------------- C11
+
+def c11(work, tier, seed, replay):
+    rep = Report("C11", tier, seed, "model_checking")
+    build_driver()
+    n = 4 if tier == "quick" else 5
+    c = bconsts("quick")
+    # TLC enumerates every token sequence up to length n, checks the grammar (ASSUME), and emits it with the parser's verdict
+    d = work.sub("grammar")
+    for f in os.listdir(SPEC):
+        if f.endswith(".tla"):
+            shutil.copy(os.path.join(SPEC, f), d)
+    open(os.path.join(d, "MC_Grammar.tla"), "w").write(
+        "---- MODULE MC_Grammar ----\nEXTENDS MC_Bastion\nASSUME GrammarSane(%d)\nASSUME EmitBodies(%d)\nGNext == UNCHANGED bvars\n====\n" % (n, n))
+    open(os.path.join(d, "run.cfg"), "w").write(cfg_text(init_next=("BInit", "GNext"), constants=dict(c, Olds={0}, BadKinds={"random"}, BadAuths={"badsig"}, MaxSize=1, NBranch=1, Malformed={"nosize"})))
+    rc, out, dt = sh(["tlc", "-workers", "4", "-metadir", os.path.join(d, "md"), "-config", "run.cfg", "MC_Grammar.tla"], cwd=d, timeout=1800,
+                     env=dict(os.environ, JAVA_TOOL_OPTIONS="-Xss64m"))
+    r = TLCResult(rc, out, dt)
+    if not r.ok:
+        raise Inconclusive("MC_Grammar failed: %s\n%s" % (r.error or r.violated, out[-2000:]))
+    toks = r.prints("TOK")
+    rep.add_model("MC_Grammar(len<=%d)" % n, r)
+    rep.cov["states"] = max(rep.cov["states"], 1)
+    rep.cov["transitions"] = len(toks)
+    vec = work.path("toks.jsonl")
+    open(vec, "w").write("\n".join(toks) + "\n")
+    # the repository's own writer of the body format
+    fb = build_feedbastion_writer_test()
+    win, wout = work.path("writer-in.jsonl"), work.path("writer-out.txt")
+    run_driver(["body", "-writer-in", win, "-seed", str(seed)])
+    rc, o, dt = sh([fb, "-test.run", "TestVerifWriter", "-test.count", "1"], env=dict(GOENV, VERIF_WRITER_IN=win, VERIF_WRITER_OUT=wout), timeout=600)
+    if rc != 0 or not os.path.exists(wout):
+        raise Inconclusive("cmd/feedbastion writer test failed:\n" + o[-2000:])
+    tp = work.path("body.ndjson")
+    o, dt = run_driver(["body", "-in", vec, "-out", tp, "-seed", str(seed), "-reps", "2" if tier == "quick" else "6", "-proofs", "400" if tier == "quick" else "4000",
+                        "-writer-out", wout, "-writer-vec", win])
+    rep.notes.append(o.strip())
+    events = read_ndjson(tp)
+    jc = dict(c)
+    jc["TraceFile"] = tp
+    jr = tlc(work, "MC_Trace_Body", cfg_text(spec="TSpec", constants=jc, action_constraints=["Monitor"], postcondition="Done"), name="judge-body", workers=1, timeout=3600, heap="12g")
+    if not jr.ok:
+        raise Inconclusive("body judge failed: %s\n%s" % (jr.error or jr.violated, jr.out[-3000:]))
+    fails = [["FAIL", f["id"], f["name"], f["i"], f["run"], f["k"], f["sig"]] for f in map(json.loads, jr.prints("FAIL"))]
+    seqfam.settle(rep, "C11", fails, events, c)
+    rep.cov["evaluations"] = len(events)
+    rep.cov["traces_validated_against_impl"] = 1
+    rep.cov["distinct_nontrivial"] = len({json.dumps([e["e"], e["toks"], e["kind"], e["accepted"], e["conc"] if e["e"] != "body" else ""]) for e in events})
+    rep.cov["bodies_accepted"] = sum(1 for e in events if e["e"] == "body" and e["accepted"])
+    rep.cov["writer_bodies"] = sum(1 for e in events if e["e"] == "writer")
+    rep.cov["proof_round_trips"] = sum(1 for e in events if e["e"] == "proof" and e["kind"] == "roundtrip")
+    rep.cov["rule"] = ("TLC enumerates EVERY sequence of line tokens (canonical / sloppy / garbage-suffixed / missing size line, base64 line, non-base64 line, blank, checkpoint line) up to length %d with the "
+                       "grammar's verdict; each is rendered with seeded values (old sizes over 0..2^64-1 incl. every decimal length, 1..64-byte hashes, checkpoint bytes with blank lines and non-UTF-8) and fed to "
+                       "the real parseBody; Proof.Marshal/Unmarshal for every length 0..64 and damaged texts; bodies written by cmd/feedbastion's own writer; judged by Trace_Body; "
+                       "the VALUE domain is sampled, the STRUCTURE domain is exhaustive; distinct = distinct (kind, token sequence / shape, outcome)" % n)
+    rep.cov["exhaustive"] = False
+    bodies = [e for e in events if e["e"] == "body" and e["accepted"]]
+    for e in bodies[:2] + [e for e in events if e["e"] == "proof"][:1]:
+        rep.sample(e)
+    rep.assumptions += ["byte values are sampled by seeded generators (encode/decode fidelity is the corner this family is weakest at)",
+                        "cmd/feedbastion's writer is only ever called with old size 0 by its feeder (its GetLatestCheckpoint always answers 'none'); it is driven with old size 0"]
+    return rep.finish()
+
+
+CHECKS["C11"] = c11
